@@ -79,7 +79,7 @@ def main():
         checks_by_k = extra
     for k in ks:
         if "checks_by_k" in dir():
-            name = ("%s-%s" % (label, pid)) if label else "%s-%d" % (pid, k)
+            name = (("%s-%s-%d" % (label, pid, k)) if multi else ("%s-%s" % (label, pid))) if label else "%s-%d" % (pid, k)
             for c in checks_by_k.get(name, []):
                 if c not in checks:
                     checks = checks + [c]
